@@ -390,8 +390,10 @@ func (m *Manager) ApplyBatch(entries []*wal.Entry) error {
 
 		verifhook.Point("storage.batch.after_wal")
 		// Apply each entry to the MemTable
-		for i, entry := range entries {
-			seqNum := startSeqNum + uint64(i)
+		for _, entry := range entries {
+			// All entries of a batch share the batch's single sequence number,
+			// exactly as they are recorded in the WAL
+			seqNum := startSeqNum
 
 			switch entry.Type {
 			case wal.OpTypePut:
